@@ -89,6 +89,7 @@ DISTINCTIVE = (set(_DISTS) - {"f", "power", "gamma", "beta"}) | set(
     """integers permuted rand randn randint random_integers random_sample ranf tomaxint gauss randrange
     getrandbits randbytes normalvariate""".split())
 DERIVING_METHODS = {"generate_state", "jumped"}  # seed material derived from a generator object (keeps all of it)
+NUMBA_COMPILERS = {"jit", "njit", "vectorize", "guvectorize", "cfunc", "stencil"}
 SEEDSEQ_PARTS = {"entropy", "spawn_key"}  # attributes holding only a part of a SeedSequence
 
 QMC_ENGINES = {  # name -> literal keyword that makes the engine deterministic
@@ -515,10 +516,13 @@ class Analysis:
                 return ("construct", f"{L}.{name}", v.but(gen=True, engine=False, sp=None, child=None))
             if (L, name) in ENTROPY_FUNCS or L in ("secrets", "os.urandom"):
                 return ("entropy", f"{L}.{name}" if L != "os.urandom" else qual, V("fresh", note="OS entropy"))
-            if L == "numpy.random" and name in NP_GLOBAL_FUNCS:
-                return ("moduleDraw", f"numpy.random.{name}", V("global"))
-            if L == "random" and name in PY_GLOBAL_FUNCS:
-                return ("moduleDraw", f"random.{name}", V("global"))
+            if (L == "numpy.random" and name in NP_GLOBAL_FUNCS) or (L == "random" and name in PY_GLOBAL_FUNCS):
+                if S.get("numba"):
+                    # inside a numba-compiled function these names are numba's own per-thread generator: seeded
+                    # from OS entropy at start-up, untouched by np.random.seed / random.seed and by every seed of ours
+                    return ("moduleDraw", f"{L}.{name} [in a numba-compiled function: numba's own generator]",
+                            V("fresh", note="numba's generator is seeded from OS entropy; no seed reaches it"))
+                return ("moduleDraw", f"{L}.{name}", V("global"))
             if L == "scipy.stats.qmc" and name in QMC_ENGINES:
                 det = QMC_ENGINES[name]
                 kws = {k.arg: k.value for k in call.keywords if k.arg}
@@ -770,7 +774,13 @@ class Analysis:
             for p in a.posonlyargs + a.args + a.kwonlyargs:
                 if SEED_PARAM.search(p.arg) and p.arg not in ("self", "cls"):
                     env[p.arg] = V("seed", path=p.arg)
-        return {"mod": mod, "cls": cls, "fn": fn, "env": env, "roots": set(env)}
+        numba = False
+        if fn is not None:
+            for dec in fn.decorator_list:
+                q = mod.qualify(dec.func if isinstance(dec, ast.Call) else dec) or ""
+                if q.split(".")[0] == "numba" and q.split(".")[-1] in NUMBA_COMPILERS:
+                    numba = True
+        return {"mod": mod, "cls": cls, "fn": fn, "env": env, "roots": set(env), "numba": numba}
 
     def run_scope(self, mod, name, cls, fn, body):
         S = self.scope_state(mod, cls, fn)
